@@ -266,7 +266,7 @@ def gen_cases(tier, rnd):
             sc["allow_redundant_or"] = False
             runs.append((ts, sc, "shacl"))
         cases.append({"runs": runs, "meta": {"i": i, "stream": stream}})
-    for c in pipemap.stream(tier, rnd, 150, 4000):       # selectors of every kind, all_classes_mode + shape map, OR on/off
+    for c in pipemap.stream(tier, rnd, 300, 4000):       # selectors of every kind, all_classes_mode + shape map, OR on/off
         c["meta"]["stream"] = "shape-map-general"
         cases.append(c)
     return cases
